@@ -1682,6 +1682,12 @@ class TableLeafCell(BTreeCell):
             )
             raise CellParsingError(log_message)
 
+        if self.has_overflow:
+            # The digest covers the overflow content as well so that a change confined to an overflow page is seen
+            self.md5_hex_digest = get_md5_hash(
+                page[int(self.start_offset) : int(self.end_offset)] + self.overflow
+            )
+
         self.payload = Record(
             page,
             int(self.payload_offset),
@@ -2027,6 +2033,12 @@ class IndexInteriorCell(BTreeCell):
                 self.version_number,
             )
             raise CellParsingError(log_message)
+
+        if self.has_overflow:
+            # The digest covers the overflow content as well so that a change confined to an overflow page is seen
+            self.md5_hex_digest = get_md5_hash(
+                page[int(self.start_offset) : int(self.end_offset)] + self.overflow
+            )
 
         self.payload = Record(
             page,
@@ -2416,6 +2428,12 @@ class IndexLeafCell(BTreeCell):
                 self.version_number,
             )
             raise CellParsingError(log_message)
+
+        if self.has_overflow:
+            # The digest covers the overflow content as well so that a change confined to an overflow page is seen
+            self.md5_hex_digest = get_md5_hash(
+                page[int(self.start_offset) : int(self.end_offset)] + self.overflow
+            )
 
         self.payload = Record(
             page,
